@@ -115,6 +115,9 @@ func (f *flushStatser) snapshot() (int, [3]float64) {
 	return f.emits, f.last
 }
 
+// number of async cases whose verdict stayed bad until the settle deadline (see runAsync)
+var slowVerdicts int
+
 // what one name must add up to downstream
 type expect struct {
 	typ     gostatsd.MetricType
@@ -224,15 +227,15 @@ func runAsync(in input) hlib.Case {
 	go func() { swg.Wait(); close(sendersDone) }()
 	select {
 	case <-sendersDone:
-	case <-time.After(10 * time.Second):
-		monitors = append(monitors, "senders blocked: DispatchMetricMap / DispatchEvent did not return within 10s")
+	case <-time.After(30 * time.Second):
+		monitors = append(monitors, "senders blocked: DispatchMetricMap / DispatchEvent did not return within 30s")
 	}
 
 	// drain: every parked item has a lookup on its way and the cache answers every lookup.  The
 	// queue gauges are read through the real path (flush notification -> scheduleEmit -> Run's emit
 	// arm), which is race free; nothing is parked when a fresh emit reports three zeros.
 	base, _ := fs.snapshot()
-	deadline := time.Now().Add(5 * time.Second)
+	deadline := time.Now().Add(20 * time.Second)
 	drained := false
 	var lastG [3]float64
 	for time.Now().Before(deadline) {
@@ -252,9 +255,180 @@ func runAsync(in input) hlib.Case {
 		}
 	}
 	if !drained {
-		monitors = append(monitors, fmt.Sprintf("items are still parked 5s after the last arrival although every lookup was answered: gauges %v", lastG))
+		monitors = append(monitors, fmt.Sprintf("items are still parked 20s after the last arrival although every lookup was answered: gauges %v", lastG))
 	}
-	time.Sleep(time.Millisecond) // duplicates, if any, are on their way
+	// ---- exactly once, correctly tagged.  The releases run in goroutines of their own
+	// (updateAndDispatchMetrics / Events): zero gauges mean nothing is parked, not that those goroutines
+	// have delivered yet.  The verdict is therefore polled until it is clean or a generous deadline passes
+	// (a loaded machine may not schedule them for a long time), then taken once more a little later so that
+	// a duplicate that is still on its way is seen.
+	verify := func() []string {
+		var monitors []string
+		instOf := func(src string) *instIn {
+			if ii, ok := a.Insts[src]; ok {
+				return &ii
+			}
+			return nil
+		}
+		refreshed := map[string]bool{}
+		for _, s := range a.Refresh {
+			refreshed[s] = true
+		}
+		// how an item of source src may leave: tagged? unchanged?
+		checkTag := func(what, src string, origTags []string, gotSrc string, gotTags []string) {
+			if !strings.HasPrefix(what, "event") {
+				// FormatTagsKey sorts the tags of a dispatched series in place: compare as multisets
+				origTags = append([]string{}, origTags...)
+				gotTags = append([]string{}, gotTags...)
+				sort.Strings(origTags)
+				sort.Strings(gotTags)
+			}
+			sorted := !strings.HasPrefix(what, "event")
+			if src == "" {
+				if gotSrc != "" || !sameTags(gotTags, origTags) {
+					monitors = append(monitors, fmt.Sprintf("%s without source left as source=%q tags=%q", what, gotSrc, gotTags))
+				}
+				return
+			}
+			ii := instOf(src)
+			kind := a.Script[src]
+			unchanged := gotSrc == src && sameTags(gotTags, origTags)
+			wantTagged := []string{}
+			if ii != nil {
+				wantTagged = append(append(wantTagged, origTags...), ii.Tags...)
+				if sorted {
+					sort.Strings(wantTagged)
+				}
+			}
+			tagged := ii != nil && gotSrc == ii.ID && sameTags(gotTags, wantTagged)
+			okU := kind == "neg" || kind == "err"
+			okT := kind == "pos" || kind == "err" || (refreshed[src] && kind != "neg")
+			if !((unchanged && okU) || (tagged && okT)) {
+				monitors = append(monitors, fmt.Sprintf("%s of source %q (script %s) left with source=%q tags=%q (entered with tags %q)", what, src, kind, gotSrc, gotTags, origTags))
+			}
+		}
+		got := map[string]*expect{}
+		get := func(name string) *expect {
+			g := got[name]
+			if g == nil {
+				g = &expect{members: map[string]bool{}, gauges: map[float64]bool{}}
+				got[name] = g
+			}
+			return g
+		}
+		down.mu.Lock()
+		for _, m := range down.mms {
+			m.Counters.Each(func(n, _ string, c gostatsd.Counter) {
+				g := get(n)
+				g.counter += c.Value
+				g.n++
+				if e := exp[n]; e != nil {
+					checkTag("counter "+n, e.src, e.tags, string(c.Source), c.Tags)
+				}
+			})
+			m.Timers.Each(func(n, _ string, t gostatsd.Timer) {
+				g := get(n)
+				g.timers = append(g.timers, t.Values...)
+				g.n++
+				if e := exp[n]; e != nil {
+					checkTag("timer "+n, e.src, e.tags, string(t.Source), t.Tags)
+				}
+			})
+			m.Sets.Each(func(n, _ string, s gostatsd.Set) {
+				g := get(n)
+				for k := range s.Values {
+					g.members[k] = true
+				}
+				g.n++
+				if e := exp[n]; e != nil {
+					checkTag("set "+n, e.src, e.tags, string(s.Source), s.Tags)
+				}
+			})
+			m.Gauges.Each(func(n, _ string, gg gostatsd.Gauge) {
+				g := get(n)
+				g.gauges[gg.Value] = true
+				g.n++
+				if e := exp[n]; e != nil {
+					checkTag("gauge "+n, e.src, e.tags, string(gg.Source), gg.Tags)
+				}
+			})
+		}
+		evGot := map[string]int{}
+		for _, e := range down.events {
+			evGot[e.Title]++
+			if x := evExp[e.Title]; x != nil {
+				checkTag("event "+e.Title, x.Src, x.Tags, string(e.Source), e.Tags)
+				if e.Text != x.Text || e.DateHappened != x.Date {
+					monitors = append(monitors, fmt.Sprintf("event %s left with other fields", e.Title))
+				}
+			} else {
+				monitors = append(monitors, fmt.Sprintf("event %q reached downstream but never entered", e.Title))
+			}
+		}
+		down.mu.Unlock()
+		for t := range evExp {
+			if evGot[t] != 1 {
+				monitors = append(monitors, fmt.Sprintf("event %s reached downstream %d times", t, evGot[t]))
+			}
+		}
+		names := make([]string, 0, len(exp))
+		for n := range exp {
+			names = append(names, n)
+		}
+		sort.Strings(names)
+		for _, n := range names {
+			e, g := exp[n], got[n]
+			if g == nil {
+				monitors = append(monitors, fmt.Sprintf("series %s never reached downstream", n))
+				continue
+			}
+			switch e.typ {
+			case gostatsd.COUNTER:
+				if g.counter != e.counter {
+					monitors = append(monitors, fmt.Sprintf("counter %s: %d entered, %d left", n, e.counter, g.counter))
+				}
+			case gostatsd.TIMER:
+				x, y := append([]float64{}, e.timers...), append([]float64{}, g.timers...)
+				sort.Float64s(x)
+				sort.Float64s(y)
+				if fmt.Sprint(x) != fmt.Sprint(y) {
+					monitors = append(monitors, fmt.Sprintf("timer %s: values %v entered, %v left", n, x, y))
+				}
+			case gostatsd.SET:
+				if len(g.members) != len(e.members) {
+					monitors = append(monitors, fmt.Sprintf("set %s: %d members entered, %d left", n, len(e.members), len(g.members)))
+				}
+			case gostatsd.GAUGE:
+				for v := range g.gauges {
+					if !e.gauges[v] {
+						monitors = append(monitors, fmt.Sprintf("gauge %s: value %v left but never entered", n, v))
+					}
+				}
+				if g.n > e.n {
+					monitors = append(monitors, fmt.Sprintf("gauge %s: %d datapoints entered, %d series left", n, e.n, g.n))
+				}
+			}
+		}
+		for n := range got {
+			if exp[n] == nil {
+				monitors = append(monitors, fmt.Sprintf("series %s reached downstream but never entered", n))
+			}
+		}
+		return monitors
+	}
+	wait := 20 * time.Second
+	if slowVerdicts >= 2 {
+		wait = 2 * time.Second // a broken tree fails many cases: do not spend 20s on each of them
+	}
+	settle := time.Now().Add(wait)
+	for len(verify()) > 0 && time.Now().Before(settle) {
+		time.Sleep(200 * time.Microsecond)
+	}
+	if !time.Now().Before(settle) {
+		slowVerdicts++
+	}
+	time.Sleep(2 * time.Millisecond)
+	monitors = append(monitors, verify()...)
 	cancel()
 	select {
 	case <-runDone:
@@ -265,157 +439,6 @@ func runAsync(in input) hlib.Case {
 	cache.wg.Wait()
 	nEmits, _ := fs.snapshot()
 
-	// ---- exactly once, correctly tagged
-	instOf := func(src string) *instIn {
-		if ii, ok := a.Insts[src]; ok {
-			return &ii
-		}
-		return nil
-	}
-	refreshed := map[string]bool{}
-	for _, s := range a.Refresh {
-		refreshed[s] = true
-	}
-	// how an item of source src may leave: tagged? unchanged?
-	checkTag := func(what, src string, origTags []string, gotSrc string, gotTags []string) {
-		if !strings.HasPrefix(what, "event") {
-			// FormatTagsKey sorts the tags of a dispatched series in place: compare as multisets
-			origTags = append([]string{}, origTags...)
-			gotTags = append([]string{}, gotTags...)
-			sort.Strings(origTags)
-			sort.Strings(gotTags)
-		}
-		sorted := !strings.HasPrefix(what, "event")
-		if src == "" {
-			if gotSrc != "" || !sameTags(gotTags, origTags) {
-				monitors = append(monitors, fmt.Sprintf("%s without source left as source=%q tags=%q", what, gotSrc, gotTags))
-			}
-			return
-		}
-		ii := instOf(src)
-		kind := a.Script[src]
-		unchanged := gotSrc == src && sameTags(gotTags, origTags)
-		wantTagged := []string{}
-		if ii != nil {
-			wantTagged = append(append(wantTagged, origTags...), ii.Tags...)
-			if sorted {
-				sort.Strings(wantTagged)
-			}
-		}
-		tagged := ii != nil && gotSrc == ii.ID && sameTags(gotTags, wantTagged)
-		okU := kind == "neg" || kind == "err"
-		okT := kind == "pos" || kind == "err" || (refreshed[src] && kind != "neg")
-		if !((unchanged && okU) || (tagged && okT)) {
-			monitors = append(monitors, fmt.Sprintf("%s of source %q (script %s) left with source=%q tags=%q (entered with tags %q)", what, src, kind, gotSrc, gotTags, origTags))
-		}
-	}
-	got := map[string]*expect{}
-	get := func(name string) *expect {
-		g := got[name]
-		if g == nil {
-			g = &expect{members: map[string]bool{}, gauges: map[float64]bool{}}
-			got[name] = g
-		}
-		return g
-	}
-	down.mu.Lock()
-	for _, m := range down.mms {
-		m.Counters.Each(func(n, _ string, c gostatsd.Counter) {
-			g := get(n)
-			g.counter += c.Value
-			g.n++
-			if e := exp[n]; e != nil {
-				checkTag("counter "+n, e.src, e.tags, string(c.Source), c.Tags)
-			}
-		})
-		m.Timers.Each(func(n, _ string, t gostatsd.Timer) {
-			g := get(n)
-			g.timers = append(g.timers, t.Values...)
-			g.n++
-			if e := exp[n]; e != nil {
-				checkTag("timer "+n, e.src, e.tags, string(t.Source), t.Tags)
-			}
-		})
-		m.Sets.Each(func(n, _ string, s gostatsd.Set) {
-			g := get(n)
-			for k := range s.Values {
-				g.members[k] = true
-			}
-			g.n++
-			if e := exp[n]; e != nil {
-				checkTag("set "+n, e.src, e.tags, string(s.Source), s.Tags)
-			}
-		})
-		m.Gauges.Each(func(n, _ string, gg gostatsd.Gauge) {
-			g := get(n)
-			g.gauges[gg.Value] = true
-			g.n++
-			if e := exp[n]; e != nil {
-				checkTag("gauge "+n, e.src, e.tags, string(gg.Source), gg.Tags)
-			}
-		})
-	}
-	evGot := map[string]int{}
-	for _, e := range down.events {
-		evGot[e.Title]++
-		if x := evExp[e.Title]; x != nil {
-			checkTag("event "+e.Title, x.Src, x.Tags, string(e.Source), e.Tags)
-			if e.Text != x.Text || e.DateHappened != x.Date {
-				monitors = append(monitors, fmt.Sprintf("event %s left with other fields", e.Title))
-			}
-		} else {
-			monitors = append(monitors, fmt.Sprintf("event %q reached downstream but never entered", e.Title))
-		}
-	}
-	down.mu.Unlock()
-	for t := range evExp {
-		if evGot[t] != 1 {
-			monitors = append(monitors, fmt.Sprintf("event %s reached downstream %d times", t, evGot[t]))
-		}
-	}
-	names := make([]string, 0, len(exp))
-	for n := range exp {
-		names = append(names, n)
-	}
-	sort.Strings(names)
-	for _, n := range names {
-		e, g := exp[n], got[n]
-		if g == nil {
-			monitors = append(monitors, fmt.Sprintf("series %s never reached downstream", n))
-			continue
-		}
-		switch e.typ {
-		case gostatsd.COUNTER:
-			if g.counter != e.counter {
-				monitors = append(monitors, fmt.Sprintf("counter %s: %d entered, %d left", n, e.counter, g.counter))
-			}
-		case gostatsd.TIMER:
-			x, y := append([]float64{}, e.timers...), append([]float64{}, g.timers...)
-			sort.Float64s(x)
-			sort.Float64s(y)
-			if fmt.Sprint(x) != fmt.Sprint(y) {
-				monitors = append(monitors, fmt.Sprintf("timer %s: values %v entered, %v left", n, x, y))
-			}
-		case gostatsd.SET:
-			if len(g.members) != len(e.members) {
-				monitors = append(monitors, fmt.Sprintf("set %s: %d members entered, %d left", n, len(e.members), len(g.members)))
-			}
-		case gostatsd.GAUGE:
-			for v := range g.gauges {
-				if !e.gauges[v] {
-					monitors = append(monitors, fmt.Sprintf("gauge %s: value %v left but never entered", n, v))
-				}
-			}
-			if g.n > e.n {
-				monitors = append(monitors, fmt.Sprintf("gauge %s: %d datapoints entered, %d series left", n, e.n, g.n))
-			}
-		}
-	}
-	for n := range got {
-		if exp[n] == nil {
-			monitors = append(monitors, fmt.Sprintf("series %s reached downstream but never entered", n))
-		}
-	}
 	// ---- lookups and final state
 	cache.lmu.Lock()
 	nLook := 0
